@@ -118,7 +118,7 @@ impl Marwood {
             };
 
             let desc = match &frame.desc {
-                Some(desc) => desc.clone(),
+                Some(desc) => Cell::clone(desc),
                 _ => Cell::Nil,
             };
 
